@@ -46,7 +46,7 @@ Small(d) == \A k \in Keys :
   /\ SmallV(d.kv[k].v)
   /\ \A f \in DOMAIN d.hs[k].f : SmallV(d.hs[k].f[f])
   /\ Len(d.ls[k].q) <= MaxLen
-  /\ \A m \in DOMAIN d.zs[k].sc : d.zs[k].sc[m] <= MaxNum /\ d.zs[k].sc[m] >= 0 - MaxNum
+  /\ \A m \in DOMAIN d.zs[k].sc : IsExtreme(d.zs[k].sc[m]) \/ (d.zs[k].sc[m] <= MaxNum /\ d.zs[k].sc[m] >= 0 - MaxNum)
 
 V1 == CHOOSE v \in VIds : TRUE
 X1 == CHOOSE x \in Subs : TRUE
